@@ -25,6 +25,8 @@ ND_UNITS = {
     'NDSize_allocate': member(r'\bvoid\s+allocate\s*\('),
     'NDSize_plus': free(r'NDSizeBase<T>\s+operator\s*\+\s*\((?=\s*NDSizeBase<T>\s+lhs\s*,\s*const\s+NDSizeBase)'),
     'NDSize_minus': free(r'NDSizeBase<T>\s+operator\s*-\s*\((?=\s*NDSizeBase<T>\s+lhs\s*,\s*const\s+NDSizeBase)'),
+    'NDSize_fill': member(r'\bvoid\s+fill\s*\((?=\s*T\s+value)'),
+    'NDSize_ctor_fill': member(r'explicit\s+NDSizeBase\s*\((?=\s*size_t\s+rank\s*,\s*T\s+fill_value)', ctor=True, member_calls={'allocate': 'NDSize_allocate', 'fill': 'NDSize_fill'}),
     'NDSize_lt': free(r'inline\s+bool\s+operator\s*<\s*\((?=\s*const\s+NDSizeBase)', loops=cmp_loop('<')),
     'NDSize_le': free(r'inline\s+bool\s+operator\s*<=\s*\((?=\s*const\s+NDSizeBase)', loops=cmp_loop('<=')),
     'NDSize_gt': free(r'inline\s+bool\s+operator\s*>\s*\((?=\s*const\s+NDSizeBase)'),
